@@ -3,7 +3,7 @@
    the extracted datatypes. *)
 From Coq Require Import ZArith List Floats.
 From Coq Require Import ExtrOcamlBasic ExtrOCamlFloats ExtrOCamlInt63.
-From SC Require Import Num Vec3 Kernel FloatIO Grid Integrator CellCycle Mesh Geometry Forces MeshOps Population Vtk Params Params_gen Output Contact Divider.
+From SC Require Import Num Vec3 Kernel FloatIO Grid Integrator CellCycle Mesh Geometry Forces MeshOps Population Vtk Params Params_gen Output Contact Divider Init.
 
 Definition kernel_f := kernel NumF.
 
@@ -93,6 +93,13 @@ Definition dv_rot_to_z_f := @rot_to_z float NumF.
 Definition dv_to_xy_f := @to_xy float NumF.
 Definition dv_to_plane_f := @to_plane float NumF.
 
+(* C13: acceptance gate and Poisson disk sampling *)
+Definition init_gate_b := gate_b.
+Definition init_poisson_f := @poisson float NumF f_floorZ.
+Definition init_place_f := @place float NumF f_floorZ (@opoint float).
+Definition init_empty_f := @empty_store float (@opoint float).
+Definition init_content_f := @grid_content float (@opoint float).
+
 Extraction Language OCaml.
 Extraction "model.ml" NumF kernel_f
   grid_dims_f grid_idx3_f grid_in_range_f grid_flat_f grid_empty_f grid_place_f grid_nbh_f grid_content_f grid_content_at_f
@@ -108,4 +115,5 @@ Extraction "model.ml" NumF kernel_f
   par_numerical par_cell_types par_translation_ok
   out_run_f out_init_f
   ct_phase_f ct_all_pairs_f ct_prepare_f
-  dv_edge_plane_f dv_divide_face5_f dv_rot_to_z_f dv_to_xy_f dv_to_plane_f.
+  dv_edge_plane_f dv_divide_face5_f dv_rot_to_z_f dv_to_xy_f dv_to_plane_f
+  init_gate_b init_poisson_f init_place_f init_empty_f init_content_f.
